@@ -3,12 +3,12 @@ import torch
 from hypothesis import strategies as st
 from torch import nn
 
-from .. import sdes
+from .. import brownian_tools, sdes
 from ..core import Fail, Result
 
 ID = "C15"
 RULE = ("case = generic SDE (Stratonovich, 4 noise types, drawn sizes) x dyadic (t0, dt) x n in 1..64 steps x entropy x "
-        "float64; variants: a single step clipped at ts[-1] (span < dt), outputs strictly inside steps (symmetric and asymmetric under reversal), a third leg that reverses the reverse run with ReverseBrownian(ReverseBrownian(bm)). reversible_heun is run forward with extra=True; then reversible_heun is run on the time-reversed, "
+        "float64 (or float32 state with float64 times); variants: a single step clipped at ts[-1] (span < dt), outputs strictly inside steps (symmetric and asymmetric under reversal), a third leg that reverses the reverse run with ReverseBrownian(ReverseBrownian(bm)). reversible_heun is run forward with extra=True; then reversible_heun is run on the time-reversed, "
         "negated SDE (f_r(s,y) = -f(-s,y), g_r(s,y) = -g(-s,y)) with ReverseBrownian and the negated final (f,g) extra "
         "state; every state of the forward trajectory must be reconstructed: relative 1e-12 for a single step, 1e-8 for "
         "n <= 64 steps; the reconstructed extra state must equal the negated initial one. Non-trivial = batch*d >= 2 and "
@@ -58,7 +58,10 @@ def _case(draw, tier):
             "sparse": draw(st.booleans()),
             # the reverse leg requested through sdeint_adjoint (documented to take extra_solver_state like sdeint; same
             # forward values by C09)
-            "reverse_via_adjoint": draw(st.sampled_from([False, False, True]))}
+            "reverse_via_adjoint": draw(st.sampled_from([False, False, True])),
+            # single-precision state, parameters and Brownian motion with double-precision times (a tensor ts is used as
+            # given): "up to rounding error" is then float32 rounding error
+            "float32_state": draw(st.sampled_from([False, False, False, True]))}
 
 
 def strategy(tier):
@@ -69,6 +72,9 @@ def run_case(case):
     import torchsde
     from torchsde._brownian import ReverseBrownian
     spec = case["spec"]
+    f32 = bool(case.get("float32_state"))
+    if f32:
+        spec = dict(spec, dtype="float32")
     sde = sdes.build_generic(spec)
     y0 = sdes.y0_for(spec)
     t0, dt, n = case["t0"], case["dt"], case["n"]
@@ -83,11 +89,13 @@ def run_case(case):
         inside_t = [t0 + ((k % n) + f) * dt for k, f in case["inside"]]
         times = sorted(set(([times[0], times[-1]] if case.get("sparse") else times) + inside_t))
     ts = torch.tensor(times, dtype=torch.float64)
-    bm = sdes.make_bm(torchsde, spec, ts[0], ts[-1], case["entropy"], levy=case["levy"])
+    bm = brownian_tools.make_recording(sdes.make_bm(torchsde, spec, ts[0], ts[-1], case["entropy"], levy=case["levy"]))
     sig = {"noise_type": spec["noise_type"], "n": "1" if n == 1 else "many"}
     with torch.no_grad():
         ys, (fT, gT, zT) = torchsde.sdeint(sde, y0, ts, bm=bm, method="reversible_heun", dt=dt, extra=True)
         f0, g0 = sde.f(ts[0], y0), sde.g(ts[0], y0)
+        fwd_log = [(a, b) for a, b, *_ in bm.log]
+        del bm.log[:]
         ts_rev = -ts.flip(0)
         rev_api = torchsde.sdeint_adjoint if case.get("reverse_via_adjoint") else torchsde.sdeint
         supplied = (-fT, -gT, zT)
@@ -98,6 +106,7 @@ def run_case(case):
                                        extra_solver_state=supplied)
         mutated = not all(torch.equal(a_, b_) for a_, b_ in zip(supplied, supplied_before)) or \
             not torch.equal(ys[-1], y_end_before)
+        rev_log = [(a, b) for a, b, *_ in bm.log]
         ys_again = None
         if case.get("third_leg"):
             # the reverse run reversed once more: SDE Reversed(Reversed(sde)) (= sde), Brownian motion reversed twice,
@@ -112,15 +121,26 @@ def run_case(case):
     e_extra = max(float((fr + f0).abs().max()), float((gr + g0).abs().max()), float((zr - y0).abs().max())) / \
         max(1.0, float(f0.abs().max()), float(g0.abs().max()), scale)
     tol = 1e-12 if n == 1 else 1e-8
-    labels = [f"noise={spec['noise_type']}", "single_step" if n == 1 else f"steps>={8 if n >= 8 else 2}",
+    if f32:
+        # float32 rounding (eps 1.2e-7): errors are amplified by the flow over many steps, so the value clause is kept loose
+        # here; what makes this variant sharp is the query clause (the reverse solve must be fed the very same intervals)
+        tol = 2e-5 if n == 1 else 5e-3
+    labels = (["float32_state_float64_times"] if f32 else []) + [f"noise={spec['noise_type']}", "single_step" if n == 1 else f"steps>={8 if n >= 8 else 2}",
               f"levy={case['levy']}"] + (["clipped_single_step"] if case.get("clip_frac") else []) + \
         (["outputs_inside_steps"] if case.get("dense") and not case.get("clip_frac") else []) + \
         (["asymmetric_outputs_inside_steps"] if case.get("inside") and not case.get("clip_frac") else []) + \
         (["third_leg_doubly_reversed_bm"] if case.get("third_leg") else []) + \
         (["reverse_leg_via_sdeint_adjoint"] if case.get("reverse_via_adjoint") else []) + \
         (["sparse_outputs"] if case.get("sparse") and case.get("inside") and not case.get("clip_frac") else [])
+    sig = dict(sig, dtype=spec["dtype"])
     fail = None
-    if mutated:
+    if rev_log != fwd_log[::-1]:
+        k = next((i for i, (p_, q_) in enumerate(zip(rev_log, fwd_log[::-1])) if p_ != q_), min(len(rev_log), len(fwd_log)))
+        fail = Fail("reverse_queries_do_not_mirror_forward",
+                    f"the reverse solve asked the Brownian motion for {len(rev_log)} intervals, the forward solve for "
+                    f"{len(fwd_log)}; they are not the same intervals in reverse order (first difference at reverse step {k}: "
+                    f"{rev_log[k] if k < len(rev_log) else None} vs {fwd_log[::-1][k] if k < len(fwd_log) else None})", sig)
+    elif mutated:
         fail = Fail("supplied_state_modified", "the reverse solve modified the state / extra solver state it was given in "
                                                "place (it cannot be used for a second reverse solve)", sig)
     elif not (e <= tol) or not bool(torch.isfinite(back).all()):
@@ -129,5 +149,5 @@ def run_case(case):
     elif not e_extra <= tol:
         fail = Fail("extra_state_not_reversed", f"reconstructed extra state differs from the negated initial (f,g,z) by "
                                                 f"{e_extra:.3e} after {n} step(s)", sig)
-    return Result(nontrivial=spec["batch"] * spec["d"] >= 2 and (n == 1 or n >= 8), labels=labels, checks=2, fail=fail,
-                  metrics={("one_step_err" if n == 1 else "multi_step_err"): e, "extra_state_err": e_extra})
+    return Result(nontrivial=spec["batch"] * spec["d"] >= 2 and (n == 1 or n >= 8), labels=labels, checks=3, fail=fail,
+                  metrics={("f32_" if f32 else "") + ("one_step_err" if n == 1 else "multi_step_err"): e, ("f32_" if f32 else "") + "extra_state_err": e_extra})
